@@ -9,6 +9,7 @@ sys.path.insert(0, os.path.dirname(os.path.abspath(__file__)))
 from lib import *
 
 ENGINE = {
+    "C08": "queue", "C09": "queue", "C10": "queue", "C11": "queue", "C15": "queue", "C16": "queue",
     "C05": "writer", "C06": "writer", "C07": "writer", "C19": "writer",
 }
 LEVEL = {}
